@@ -10,6 +10,10 @@ import (
 )
 
 func main() {
+	if len(os.Args) == 2 && os.Args[1] == "corpus" {
+		checks.WriteCorpus()
+		return
+	}
 	if len(os.Args) < 3 {
 		fmt.Fprintln(os.Stderr, "usage: vdriver <id> <tier> | vdriver worker <kind> <job.json>")
 		os.Exit(2)
